@@ -139,8 +139,8 @@ def build(case, d, tr, bound=None, permute_seed=None, shared=None):
                         proposed[workflow_plan.id].discard(t)
                         tr.violate('C04', 'skipped_proposal_lost', task=t.id, t=env.now,
                                    workflow=workflow_plan.id, pairing_family=pairing)
-            except TypeError:
-                pass
+            except Exception:       # an unhashable or foreign task object: nothing to follow
+                tr.cnt['c04_follow_unavailable'] += 1
         out = inner_run(cluster=cluster, clock=clock, workflow_plan=workflow_plan,
                         existing_schedule=existing_schedule, task_pool=task_pool)
         try:
